@@ -93,7 +93,8 @@ def case_term(cid, c, obs):
 
 
 def smooth_family_oracle(rng, n):
-    """trigonometric + quadratic + Gaussian fields with closed-form derivatives (float64, 1e-8)"""
+    """trigonometric + quadratic + Gaussian fields with closed-form Laplacian / divergence at generic float64 points, half of them
+    far from the origin (float64 accuracy: 1e-11 relative to the size of the value and of the coordinates)"""
     jax, jnp, np, eqx, jinns = jx()
     from jinns.parameters import Params
     fails = []
@@ -108,6 +109,8 @@ def smooth_family_oracle(rng, n):
         r = np.random.default_rng(rng.randrange(1 << 30))
         a, w, q, c = r.normal(), r.normal(size=nv), r.normal(size=(nv, nv)), r.normal(size=nv)
         z = r.normal(size=nv)
+        if r.random() < 0.5:
+            z = z * 1024.0       # coordinates far from the origin (not representable in single precision either)
         net = Net(jnp.array(a), jnp.array(w), jnp.array(q), jnp.array(c))
         u = jinns.utils.PINN(mlp=net, slice_solution=jnp.s_[:], eq_type="nonstatio_PDE" if has_t else "statio_PDE",
                              input_transform=lambda i, p: i, output_transform=lambda i, o, p: o)
@@ -116,8 +119,23 @@ def smooth_family_oracle(rng, n):
         off = int(has_t)
         g = math.exp(-float(np.sum((z - c) ** 2)))
         want = sum(-a * math.sin(float(w @ z)) * w[i] ** 2 + 2 * q[i, i] + g * (4 * (z[i] - c[i]) ** 2 - 2) for i in range(off, nv))
-        if abs(got - want) > 1e-8 * (1 + abs(want)):
-            fails.append({"detail": f"Laplacian of a trig+quadratic+Gaussian field: {got} instead of {want}", "case": dict(what="smooth", d=d, has_t=has_t)})
+        if abs(got - want) > 1e-11 * (1 + abs(want)) * (1 + float(np.max(np.abs(z)))):
+            fails.append({"detail": f"Laplacian of a trig+quadratic+Gaussian field at {z.tolist()}: {got} instead of {want}", "case": dict(what="smooth", d=d, has_t=has_t)})
+        # divergence of a vector field F_i(z) = a_i sin(w_i . z) + z^T Q_i z
+        A, W, Q = r.normal(size=d), r.normal(size=(d, nv)), r.normal(size=(d, nv, nv))
+
+        class VNet(eqx.Module):
+            A: jax.Array; W: jax.Array; Q: jax.Array
+
+            def __call__(self, zz):
+                return self.A * jnp.sin(self.W @ zz) + jnp.einsum("i,kij,j->k", zz, self.Q, zz)
+        v = jinns.utils.PINN(mlp=VNet(jnp.array(A), jnp.array(W), jnp.array(Q)), slice_solution=jnp.s_[:], eq_type="nonstatio_PDE" if has_t else "statio_PDE",
+                             input_transform=lambda i, p: i, output_transform=lambda i, o, p: o)
+        Pv = Params(nn_params=v.init_params(), eq_params={"junk": jnp.array(0.0)})
+        gotd = float(jinns.loss._div_rev(jnp.array(z[:1]) if has_t else None, jnp.array(z[1:] if has_t else z), v, Pv))
+        wantd = sum(A[i] * math.cos(float(W[i] @ z)) * W[i, off + i] + float(((Q[i] + Q[i].T) @ z)[off + i]) for i in range(d))
+        if abs(gotd - wantd) > 1e-11 * (1 + abs(wantd)) * (1 + float(np.max(np.abs(z)))):
+            fails.append({"detail": f"divergence of a trig+quadratic field at {z.tolist()}: {gotd} instead of {wantd}", "case": dict(what="smooth", d=d, has_t=has_t)})
     return fails
 
 
